@@ -123,7 +123,14 @@ double valueOf(const Tree& t, int c, const std::string& e) {
     if (e == "count(preceding::*) div 2") return prec / 2.0; if (e == "(count(preceding::*) + count(ancestor::*)) div 4") return (prec + anc) / 4.0;
     if (e == "count(*) + 0.5") return kids + 0.5; if (e == "count(preceding-sibling::*) * 1.5 + 1") return ps * 1.5 + 1;
     if (e == "count(preceding::*) * 97 + 650") return prec * 97.0 + 650; if (e == "(count(preceding::*) + 1) * 676") return (prec + 1) * 676.0; if (e == "count(preceding::*) * 13 + 1900") return prec * 13.0 + 1900;
+    if (e == "(count(preceding::*) + 1) * 98765432101") return (prec + 1) * 98765432101.0; if (e == "count(preceding::*) * 1234567 + 123456789012") return prec * 1234567.0 + 123456789012.0; if (e == "(count(preceding::*) + 1) * 987654321") return (prec + 1) * 987654321.0;
     return prec + 1;
+}
+// digits grouped from the right: what xsl:number grouping-separator / grouping-size asks for
+std::string grouped(const std::string& digits, const std::string& sep, size_t size) {
+    if (!size || sep.empty()) return digits; std::string r; size_t n = digits.size();
+    for (size_t i = 0; i < n; ++i) { r += digits[i]; size_t left = n - 1 - i; if (left && left % size == 0) r += sep; }
+    return r;
 }
 
 std::string shapeOf(const std::string& pat) { if (pat.empty()) return "default"; if (pat == "*") return "star"; if (pat.find('|') != std::string::npos) return "union"; if (pat.find('[') != std::string::npos) return "pred"; return "name"; }
@@ -142,6 +149,7 @@ struct C17 : public Driver {
             const Json& p = sets.a[i]; std::string attrs = " level=\"" + p.str("level") + "\"";
             if (!p.str("count").empty()) attrs += " count=\"" + p.str("count") + "\""; if (!p.str("from").empty()) attrs += " from=\"" + p.str("from") + "\"";
             if (!p.str("value").empty()) attrs = " value=\"" + p.str("value") + "\"";
+            if (p.num("gsize", 0)) attrs += " grouping-separator=\"" + p.str("gsep") + "\" grouping-size=\"" + std::to_string(p.num("gsize")) + "\"";
             const bool at = p.boolean("attr"); const std::string idsel = at ? "{../@id}" : "{@id}";
             if (at) s += "<xsl:for-each select=\"@k\">";      // the current node of xsl:number is an attribute
             s += "<o f=\"s" + std::to_string(i) + "\" n=\"" + idsel + "\"><xsl:number" + attrs + " format=\"1\"/></o>";
@@ -172,6 +180,8 @@ struct C17 : public Driver {
             // a fifth of the sets number by value expression instead (the rounding of xsl:number value=)
             if (g.chance(1, 5)) { static const std::vector<std::string> vals = { "count(preceding::*) div 2", "(count(preceding::*) + count(ancestor::*)) div 4", "count(*) + 0.5", "count(preceding-sibling::*) * 1.5 + 1", "count(preceding::*) + 1", "count(preceding::*) * 97 + 650", "(count(preceding::*) + 1) * 676", "count(preceding::*) * 13 + 1900" }; s["value"] = g.pick(vals); s["from"] = ""; s["count"] = ""; }
             else if (g.chance(1, 5)) s["attr"] = true;       // number the attribute k of every element that has one
+            else if (g.chance(1, 8)) { static const std::vector<std::string> big = { "(count(preceding::*) + 1) * 98765432101", "count(preceding::*) * 1234567 + 123456789012", "(count(preceding::*) + 1) * 987654321" }; static const std::vector<std::string> seps = { ",", ".", "'", " " };
+                s["value"] = g.pick(big); s["from"] = ""; s["count"] = ""; s["token"] = "1"; s["gsep"] = g.pick(seps); s["gsize"] = (long long)g.range(1, 5); }      // nine to fourteen digits, grouped
             sets.push(s);
         }
         p["sets"] = sets; p["ns_mode"] = nsMode;
@@ -243,6 +253,14 @@ struct C17 : public Driver {
                 const bool at = S.boolean("attr"); if (at && !t.n[c].hasK) continue; if (at) res.count("numbered_attribute_nodes");
                 auto it = values[0].find(ks); if (it == values[0].end()) { res.violate("missing-record", shape, "no record for node " + id); break; }
                 const std::string& got = it->second;
+                if (S.num("gsize", 0)) {
+                    // grouped output of a large value: digits and group structure
+                    const long long v = (long long)std::floor(valueOf(t, (int)c, S.str("value")) + 0.5); const std::string want = grouped(std::to_string(v), S.str("gsep"), (size_t)S.num("gsize"));
+                    res.count("numbered_nodes"); res.count("oracle_decided"); res.count("grouped_values");
+                    if (got != want) res.violate("definition-mismatch", "value|grouping|" + std::string(got.size() < want.size() ? "short" : got.size() > want.size() ? "long" : "differs"), "node " + id + ": xsl:number value=" + std::to_string(v) + " grouping-separator='" + S.str("gsep") + "' grouping-size=" + std::to_string(S.num("gsize")) + " gives [" + got + "], expected [" + want + "]");
+                    for (size_t h = 1; h < values.size(); ++h) { auto jt = values[h].find(ks); if (values[h].empty()) continue; if (jt == values[h].end() || jt->second != got) { res.violate("history-dependent", shape + "|" + hist.a[h].str("clock"), "node " + id + ": grouped value [" + got + "] in the reference history, [" + (jt == values[h].end() ? std::string("<missing>") : jt->second) + "] in order '" + hist.a[h].str("order") + "' with clock '" + hist.a[h].str("clock") + "'"); break; } }
+                    continue;
+                }
                 std::vector<int> exp; std::string rel; bool decided;
                 if (!S.str("value").empty()) { double v = valueOf(t, (int)c, S.str("value")); long r = (long)std::floor(v + 0.5); decided = r >= 1; exp.clear(); if (decided) exp.push_back((int)r); rel = "value"; level = "value"; }
                 else decided = expected(t, (int)c, at, level, cnt, from, exp, rel);
